@@ -5,6 +5,7 @@ import (
 	"fmt"
 	"runtime"
 	"sort"
+	"strconv"
 	"strings"
 
 	jmespath "github.com/woodsbury/jmespath"
@@ -827,6 +828,8 @@ func RunC15(w *Workload, st *Stats, maxYields uint64) *RunReport {
 			simrt.SetPolicy(w.Policies[0])
 			first := callExprSearch(compiled, MustDec(docEnc))
 			for i := 0; i < 140; i++ {
+				// other compilations in between must not change a held Expression
+				callCompile("churn_c15_" + strconv.Itoa(i))
 				simrt.SetPolicy(w.Policies[0])
 				o := callExprSearch(compiled, MustDec(docEnc))
 				if o.Key() != first.Key() {
